@@ -15,6 +15,7 @@ DEFAULT = dict(
     reflect=0.2,
     layout=True,
     raise_events=0.0,
+    idle=0.0,  # probability of an extra site that has content but is never compared (module level / function)
     item_child_ops=["eq", "eq", "eq", "le", "ge", "in"],
 )
 
@@ -232,6 +233,12 @@ def gen_program(rng, prof, o=None):
                 if len(e["vals"]) == 1 and rng.random() < 0.15:
                     e["loop"] = True
                 rng.choice(tests)["events"].append(e)
+        if o["idle"] and rng.random() < o["idle"]:
+            # a snapshot with hand-written content that no test compares in this program
+            sid_n += 1
+            sid = f"s{sid_n}"
+            v = V.gen_value(rng, prof)
+            sites[sid] = {"op": "eq", "place": rng.choice(["module", "func"]), "arg": P.hand_render(v, rng, 0.8), "prev": v, "idle": True}
         for t in tests:
             rng.shuffle(t["events"])
             if o["raise_events"] and rng.random() < o["raise_events"]:
@@ -272,7 +279,7 @@ def _prune_sites(f):
     used = {e["site"] for t in f["tests"] for e in t["events"] if e.get("t") == "cmp"}
     used |= {e["site"] for e in f.get("module_events", []) if e.get("t") == "cmp"}
     used |= {sid for t in f["tests"] for e in t["events"] if e.get("t") == "cmp2" for sid in e["sites"]}
-    f["sites"] = {sid: s for sid, s in f["sites"].items() if sid in used}
+    f["sites"] = {sid: s for sid, s in f["sites"].items() if sid in used or s.get("idle")}
 
 
 def shrink_program(program):
